@@ -697,6 +697,178 @@ fn expo_case(r: &mut Rng) -> Case {
     Case { table, text, exec: true, origin: "expo" }
 }
 
+// ---------------------------------------------------------------------------
+// nested programs: the recursion guard covers the replacement *text* only.  A
+// program parsed later from a command substitution or an `eval` string that
+// came out of an alias value is a new program: the same alias (or one further
+// up the chain of origins) is eligible again in it.  These constructs are
+// outside the Coq model ($, backquotes); the stream is executed in the shell
+// and compared with (a) the same script with the alias expanded by hand at
+// every level and (b) the probe sequence computed by `nested_expected`.
+
+#[derive(Clone, Copy, Debug, PartialEq)]
+enum NestedForm {
+    Eval,
+    Dollar,
+    Backquote,
+    Assign,
+    /// `a` -> `b`, and b's value evals `a`: an alias further up the chain
+    Chain,
+}
+
+fn nested_body(form: NestedForm, call: &str, depth: usize, tag: &str) -> String {
+    let stop = "x".repeat(depth);
+    match form {
+        NestedForm::Eval | NestedForm::Chain => {
+            format!("n=x$n; probe {tag}$n; case $n in {stop}) ;; *) eval {call};; esac")
+        }
+        NestedForm::Dollar => {
+            format!("n=x$n; probe {tag}$n; case $n in {stop}) echo done;; *) echo $({call});; esac")
+        }
+        NestedForm::Backquote => {
+            format!("n=x$n; probe {tag}$n; case $n in {stop}) echo done;; *) echo `{call}`;; esac")
+        }
+        NestedForm::Assign => {
+            format!("n=x$n; case $n in {stop}) echo 0;; *) v=$({call}); echo x$v;; esac")
+        }
+    }
+}
+
+/// The alias value expanded by hand `level` times.
+fn nested_expand(form: NestedForm, name: &str, depth: usize, tag: &str, level: usize) -> String {
+    if level == 0 {
+        return name.to_string();
+    }
+    let inner = nested_expand(form, name, depth, tag, level - 1);
+    let call = match form {
+        NestedForm::Eval | NestedForm::Chain => quote_sh(&inner),
+        // a nested backquote would need escaping; `$( )` is the same program
+        NestedForm::Dollar | NestedForm::Backquote | NestedForm::Assign => inner,
+    };
+    let form_h = if form == NestedForm::Backquote { NestedForm::Dollar } else { form };
+    nested_body(form_h, &call, depth, tag)
+}
+
+/// Reference evaluation of the script: probe keys (`~` = in a subshell), stdout, exit status.
+fn nested_expected(form: NestedForm, depth: usize, tag: &str) -> String {
+    let mut items: Vec<String> = vec![];
+    let mut stdout = String::new();
+    match form {
+        NestedForm::Eval | NestedForm::Chain => {
+            for i in 1..=depth {
+                items.push(format!("{tag}{}", "x".repeat(i)));
+            }
+            items.push(format!("end{}", "x".repeat(depth)));
+        }
+        NestedForm::Dollar | NestedForm::Backquote => {
+            for i in 1..=depth {
+                items.push(format!("{}{tag}{}", if i == 1 { "" } else { "~" }, "x".repeat(i)));
+            }
+            items.push("endx".to_string());
+            stdout.push_str("done\n");
+        }
+        NestedForm::Assign => {
+            items.push(format!("r{}0", "x".repeat(depth - 1)));
+        }
+    }
+    format!("{}|stdout={}|exit=0", items.join(";"), stdout)
+}
+
+fn run_nested(table: Vec<AliasDef>, script: String) -> String {
+    let (o, _) = vsh::run_shell(
+        RunOpts { argv: vec!["-c".into(), script], ..Default::default() },
+        move |env, _| {
+            for a in &table {
+                env.aliases.replace(HashEntry::new(a.name.clone(), a.value.clone(), a.global, Location::dummy("")));
+            }
+        },
+    );
+    let items: Vec<String> = o
+        .trace
+        .iter()
+        .map(|t| format!("{}{}", if t.in_main { "" } else { "~" }, t.args.first().cloned().unwrap_or_default()))
+        .collect();
+    let mut s = format!("{}|stdout={}|exit={}", items.join(";"), o.stdout, o.status);
+    if o.panicked.is_some() || o.deadlock || o.timeout {
+        s.push_str("|abnormal");
+    }
+    s
+}
+
+fn emit_nested(w: &mut CasesWriter, form: NestedForm, depth: usize, name: &str, global: bool) {
+    let tag = "t";
+    let (table, top) = match form {
+        NestedForm::Chain => (
+            vec![
+                AliasDef { name: name.to_string(), value: "inner".to_string(), global },
+                AliasDef { name: "inner".to_string(), value: nested_body(form, name, depth, tag), global: false },
+            ],
+            name.to_string(),
+        ),
+        _ => (vec![AliasDef { name: name.to_string(), value: nested_body(form, name, depth, tag), global }], name.to_string()),
+    };
+    let line = |call: &str| match form {
+        NestedForm::Assign => format!("n=; r=$({call}); probe r$r\n"),
+        _ => format!("n=\n{call}\nprobe end$n\n"),
+    };
+    // with the aliases (defined through the built-in on earlier lines, or global ones in Env::aliases)
+    let mut script = String::new();
+    let mut direct = vec![];
+    for a in &table {
+        if a.global {
+            direct.push(a.clone());
+        } else {
+            script.push_str(&format!("alias {}={}\n", a.name, quote_sh(&a.value)));
+        }
+    }
+    script.push_str(&line(&top));
+    let observed = run_nested(direct, script.clone());
+    // expanded by hand at every level, no alias defined
+    let by_hand = line(&nested_expand(form, name, depth, tag, depth + 1));
+    let hand = run_nested(vec![], by_hand.clone());
+    let expected = nested_expected(form, depth, tag);
+
+    let table_coq: Vec<String> = table
+        .iter()
+        .map(|a| format!("({}, {}, {})", coq::s(&a.name), coq::s(&a.value), coq::b(a.global)))
+        .collect();
+    let term = format!(
+        "({}, {}, ({}, {}, {}, ({}, {}), ({}, {})))",
+        coq::list(&table_coq),
+        coq::s(&script),
+        coq::n(10),
+        coq::nat(0),
+        "(@nil (list nat * str))",
+        coq::s(&observed),
+        coq::s(&expected),
+        coq::s(&observed),
+        coq::s(&hand)
+    );
+    let json = format!(
+        "{{\"origin\":\"nested\",\"form\":{},\"depth\":{},\"script\":{},\"by_hand\":{},\"observed\":{},\"hand_trace\":{},\"expected\":{}}}",
+        json_str(&format!("{form:?}")),
+        depth,
+        json_str(&script),
+        json_str(&by_hand),
+        json_str(&observed),
+        json_str(&hand),
+        json_str(&expected)
+    );
+    w.count("origin:nested");
+    w.count(&format!("nested:{form:?}"));
+    w.push(&term, &json, &[], Some(format!("nested|{form:?}|{depth}|{name}|{global}")));
+}
+
+fn nested_stream(w: &mut CasesWriter) {
+    for form in [NestedForm::Eval, NestedForm::Dollar, NestedForm::Backquote, NestedForm::Assign, NestedForm::Chain] {
+        for depth in 2..=4 {
+            for (name, global) in [("tick", false), ("a", true)] {
+                emit_nested(w, form, depth, name, global);
+            }
+        }
+    }
+}
+
 fn corpus() -> Vec<Case> {
     let t = |l: &[(&str, &str, bool)]| -> Vec<AliasDef> {
         l.iter().map(|(n, v, g)| AliasDef { name: n.to_string(), value: v.to_string(), global: *g }).collect()
@@ -830,6 +1002,7 @@ fn real_main() {
     for c in corpus() {
         emit(&mut w, &c);
     }
+    nested_stream(&mut w);
 
     // bounded-exhaustive: all tables over a, b, c with values from EXH_VALUES
     if args.thorough() {
